@@ -79,7 +79,7 @@ impl P {
                     property: self.prop(),
                     clause: "no-panic",
                     shape: "provider task panicked".into(),
-                    detail: format!("{:?} {:?}", e, p),
+                    detail: format!("{} {:?}", if e.is_panic() { "panicked" } else { "cancelled" }, p),
                 });
                 Err("panic".into())
             }
